@@ -1,2 +1,15 @@
 import P2P.Props.C17
-#print axioms P2P.Props.C17.placeholder
+#print axioms P2P.Props.C17.grid_legal
+#print axioms P2P.Props.C17.boxes_enclose
+#print axioms P2P.Props.C17.extent_covers
+#print axioms P2P.Props.C17.memory_matches
+#print axioms P2P.Props.C17.input_names_pqr
+#print axioms P2P.Props.C17.header_ignored
+#print axioms P2P.Props.C17.parse_exact_fixed
+#print axioms P2P.Props.C17.parse_exact_ws
+#print axioms P2P.Props.C17.y_merge_witness
+#print axioms P2P.Props.C17.z_merge_witness
+#print axioms P2P.Props.C17.charge_merge_witness
+#print axioms P2P.Props.C17.radius_merge_witness
+#print axioms P2P.Props.C17.ws_radius_merge_witness
+#print axioms P2P.Props.C17.remark_witness
